@@ -155,3 +155,40 @@ MANIFEST_TEXT.update({
                 technique=DSIM + "E3 keystore world with datastore fault injection and map reference model"),
 })
 NOT_APPLICABLE[:] = [x for x in NOT_APPLICABLE if x["property_id"] not in PROPS]
+
+E1_RULE = ("2-3 logs of one id with 0-3 initial entries each, 2-4 tasks of 1-4 operations pre-drawn from the tape; tasks are real goroutines, exactly one runnable at a time "
+           "(pipe hand-off invisible to the race detector); the scheduler picks the next task at every lock acquisition of the log (12 hook sites), 6 interior hooks, "
+           "and every seam called inside a critical section (signer, block sink, proxy around the source log of a Join), with policy uniform / PCT priorities / "
+           "sticky with random pre-emptions. Exact per-log state sequences are recorded inside the mutators' critical sections. Non-trivial = the scheduler had a "
+           "real choice; distinct = distinct event-log digests (schedule + results).")
+
+PROPS.update({
+    "C13": dict(engine="E1", variant="race", level="exploration", quick_s=40, thorough_s=600, run_timeout_s=60,
+                rule=E1_RULE + " C13: all tasks work on one shared log (appends, merges in from growing sources and from a batch with several invalid entries, every read accessor, "
+                "identity change, manifest publication). Oracles: race detector (process dies with code 66), scheduler deadlock rule, every read equals a state the log had during the call, "
+                "appends appear once/chain/real-time order, porcupine linearizability against a sequential set model with nondeterministic join.",
+                assumptions=["interleavings are explored at lock acquisitions, hooks and seams, not at arbitrary instructions; the race detector covers the instruction level for the schedules that ran",
+                             "the signer is a lock-free stub with the same key (the real keystore's mutexes would add happens-before edges)"],
+                expected_probes=["concurrent-appends-one-log", "join-overlaps-source-mutation", "join-with-several-invalid-entries"]),
+    "C14": dict(engine="E1", variant="race", level="exploration", quick_s=40, thorough_s=600, run_timeout_s=60,
+                rule=E1_RULE + " C14: tasks append to and merge between any of the logs (cross-merges, rings, merge while the source is appended to or merged into), the proxy yields between the "
+                "source reads. Oracles: no deadlock; every log ends with heads that are its unreferenced entries and is causally closed; each Join's result is the union of the destination's previous "
+                "state with a state the source held between the call and the merge instant (exact state sequences).",
+                assumptions=["recursive read-locking deadlocks are modelled only through TryLock polling of the real locks"],
+                expected_probes=["join-overlaps-source-mutation"]),
+    "C17": e0("C17", "Store image checked after every block write (closure of next/refs/heads of the new block; no block rewritten), every returned pointer (entry hash, manifest) reloaded from the image of that instant through the loaders under the fetch driver, single-replica and whole-system crashes with restart from durable pointers, failing block writes (disk error) on appends and publications, sample of all pointers reloaded from the final image.",
+              level="fault_enumeration", quick_s=45,
+              expected_probes=[]),
+})
+MANIFEST_TEXT.update({
+    "C13": dict(text="Race build; a seeded scheduler serialises 2-4 goroutines on one shared log and decides every interleaving at lock acquisitions, interior hooks and seams; data races kill the worker (exit 66) and are attributed to the run; reads are checked against the exact state sequence and the history with porcupine.",
+                design_ref="DESIGN.md 3.3, 5 C13", note="Hooks (tag verif) before every l.lock acquisition and at 6 interior points; pipe hand-off keeps the scheduler invisible to TSan.",
+                technique=DSIM + "E1 seeded task scheduler under the race detector, deadlock rule on the real locks, porcupine linearizability of the recorded history"),
+    "C14": dict(text="Same scheduler; cross-merges, rings and merges from logs that are concurrently appended to or merged into; every Join result must be the union with a state the source really had in the window, every log must end well-formed, and no schedule may block all tasks.",
+                design_ref="DESIGN.md 3.3, 5 C14", note="Source states are recorded exactly inside the mutators' critical sections via the interior hooks.",
+                technique=DSIM + "E1 seeded task scheduler with proxy seam around the source log, deadlock detection and union-with-an-instant oracle"),
+    "C17": dict(text="Inside each generated history every block write is a crash point at which the store image is checked for causal closure, and every pointer ever returned is reloaded from the image of its instant (and a sample again at the end); crashes and failing writes are injected and recovery is exercised.",
+                design_ref="DESIGN.md 5 C17", note="Add is atomic per block at the store seam; a torn write is modelled as a failed or absent block. Merges write nothing.",
+                technique=DSIM + "E0 with write-log crash-point enumeration, disk-error injection and reload oracle"),
+})
+NOT_APPLICABLE[:] = [x for x in NOT_APPLICABLE if x["property_id"] not in PROPS]
